@@ -88,10 +88,12 @@ def ensure_tools():
 # ----------------------------------------------------------------------------------------------
 # generator
 # ----------------------------------------------------------------------------------------------
-def gen_text(rng, prov):
+def gen_text(rng, prov, scalars=False):
     r = rng.random()
-    if r < 0.55:
+    if r < 0.55 or (scalars and r < 0.9):
         return repr(prov)
+    if scalars:
+        return rng.choice([SETTINGS_MOD + '.A', SETTINGS_MOD + '.B', '0', '7'])
     if r < 0.82:
         return rng.choice(COMPOUND)
     if r < 0.94:
@@ -99,8 +101,13 @@ def gen_text(rng, prov):
     return rng.choice(['0', '7', '-3'])
 
 
-def gen_conf_h(rng, prov, p=0.3):
+def gen_conf_h(rng, prov, p=0.3, scalars=False):
     c = {}
+    if scalars:
+        for k, v in gen_conf_h(rng, prov, p).items():
+            c[k] = v if not containers_in(eval(v, {'__builtins__': {}, 'dict': dict, SETTINGS_MOD: types.SimpleNamespace(A=0, B=0)})) \
+                else gen_text(rng, prov, True)
+        return c
     for k in PLAIN_KEYS:
         if rng.random() < p:
             c[k] = gen_text(rng, prov)
@@ -142,7 +149,7 @@ def gen_hpath(rng, spec):
     return c02.gen_path(rng, spec)
 
 
-def gen_sections(rng, names, p=0.4, keep=0.5):
+def gen_sections(rng, names, p=0.4, keep=0.5, scalars=False):
     secnames = [n for n in names if rng.random() < keep]
     for n in names:
         r = rng.random()
@@ -155,7 +162,7 @@ def gen_sections(rng, names, p=0.4, keep=0.5):
         elif r < 0.19:
             secnames.append(n.lstrip('/') or 'rel')
     secnames = [s for s in dict.fromkeys(secnames) if s and '[' not in s and ']' not in s and '\n' not in s]
-    return {s: gen_conf_h(rng, 'S:' + s, p=p) for s in secnames}
+    return {s: gen_conf_h(rng, 'S:' + s, p=p, scalars=scalars) for s in secnames}
 
 
 def containers_in(v, path=()):
@@ -211,9 +218,13 @@ def gen_hist_case(rng, i):
             names.append('/' + '/'.join(segs[:j]))
     names = list(dict.fromkeys(names))
     forms = ['dict', 'dict', 'dict', 'ini', 'ini', 'file']
-    apps = [{'conf': gen_sections(rng, names), 'form': rng.choice(forms)}]
-    if rng.random() < 0.6:
-        if rng.random() < 0.35:
+    two = rng.random() < 0.6
+    same = two and rng.random() < 0.4
+    form0 = rng.choice(forms)
+    # both applications built from one and the same dict object: its values are immutable then (sharing those is harmless)
+    apps = [{'conf': gen_sections(rng, names, scalars=same and form0 == 'dict'), 'form': form0}]
+    if two:
+        if same:
             apps.append({'conf': 'same', 'form': apps[0]['form']})
         else:
             apps.append({'conf': gen_sections(rng, names), 'form': rng.choice(forms)})
@@ -1074,6 +1085,42 @@ def violations(recs):
     return out
 
 
+def shrink_generic(case, variants, fails, budget=500):
+    improved = True
+    while improved and budget > 0:
+        improved = False
+        for v in variants(case):
+            budget -= 1
+            if budget <= 0:
+                break
+            try:
+                bad = fails(v)
+            except Exception:
+                bad = False
+            if bad:
+                case = v
+                improved = True
+                break
+    return case
+
+
+def report_failure(ctx, case, what, sig, shrinker):
+    """ctx.oracle_fail with the first failure of each signature shrunk (the others are reported as found)."""
+    done = getattr(ctx, '_shrunk_sigs', None)
+    if done is None:
+        done = ctx._shrunk_sigs = set()
+    if sig not in done and ctx.match_known(sig) is None and len(done) < 4:
+        done.add(sig)
+        try:
+            small, what_small = shrinker(case, sig)
+            if small != case and what_small:
+                what = what_small + '  [shrunk]'
+                case = dict(small, shrunk_from=case)
+        except Exception as e:     # shrinking is a convenience, never a reason to fail
+            ctx.note('shrinking failed: %r' % (e,))
+    ctx.oracle_fail(case, what, sig)
+
+
 def cut(case, i):
     h = dict(case['hist'])
     h['steps'] = [list(s) for s in h['steps'][:i + 1]]
@@ -1103,7 +1150,7 @@ def shrink_hist(case, sig):
 
     def fails(c):
         return bool(messages(c))
-    small = c02.shrink_generic(case, variants, fails, budget=250)
+    small = shrink_generic(case, variants, fails, budget=250)
     return small, (messages(small) or [None])[0]
 
 
@@ -1162,7 +1209,12 @@ def model_obs(line):
 
 def check_hist_cases(ctx, cases, compare_model=True):
     pending = []
+    failing = 0
     for case in cases:
+        if failing >= 25:
+            # enough evidence; a broken tree may also make every further request slower (accumulating state)
+            ctx.note('history run stopped after %d failing histories' % failing)
+            break
         recs = run_hist(case)
         hist = case['hist']
         ctx.count('hist:apps:%d' % len(hist['apps']))
@@ -1186,11 +1238,13 @@ def check_hist_cases(ctx, cases, compare_model=True):
             if r['line'] is not None:
                 pending.append((single, o, r['line']))
         reported = set()
+        if any(r['bad'] for r in recs):
+            failing += 1
         for i, what, sig in violations(recs):
             if sig in reported:
                 continue
             reported.add(sig)
-            c02.report_failure(ctx, cut(case, i), what, sig, shrink_hist)
+            report_failure(ctx, cut(case, i), what, sig, shrink_hist)
     if not compare_model:
         return
     out = ctx.model([x[2] for x in pending])
@@ -1198,7 +1252,10 @@ def check_hist_cases(ctx, cases, compare_model=True):
         return
     for (single, o, line), mline in zip(pending, out):
         ctx.compared()
-        if 'unknownDispatch' in mline or 'outOfFuel' in mline or mline == 'bad-op':
+        if 'unknownDispatch' in mline:
+            ctx.count('hist:model_unknown_dispatcher')      # a dispatcher form outside the model: not comparable
+            continue
+        if 'outOfFuel' in mline or mline == 'bad-op':
             raise common.HarnessError('model artefact %s on %s' % (mline, line[:200]))
         mo = model_obs(mline)
         if 'error' in mo:
